@@ -11,6 +11,7 @@ import (
 	"verif/harness/checks/c05"
 	"verif/harness/checks/c06"
 	"verif/harness/checks/c07"
+	"verif/harness/checks/c08"
 	"verif/harness/vf"
 )
 
@@ -22,6 +23,7 @@ var checks = map[string]func(*vf.Check){
 	"C05": c05.Run,
 	"C06": c06.Run,
 	"C07": c07.Run,
+	"C08": c08.Run,
 }
 
 func main() {
